@@ -46,14 +46,16 @@ SEQ = {
 # hist.check_run that count for the property
 SCHED = {
     "C01": dict(kinds=["point", "split", "reuse"], classes=["nullvalue", "linearizability", "status"]),
-    "C04": dict(kinds=["scan", "split", "reuse"], classes=["nullvalue", "linearizability", "order", "status"]),
-    "C06": dict(kinds=["nodeset", "scan"], classes=["nodeset"]),
-    "C09": dict(kinds=["split", "point", "scan", "cursor"], classes=["progress", "structure", "lockorder"], trace=True),
+    "C04": dict(kinds=["scan", "split", "reuse", "scanedge"], classes=["nullvalue", "linearizability", "order", "status"]),
+    "C06": dict(kinds=["nodeset", "scan", "scanedge"], classes=["nodeset"]),
+    "C09": dict(kinds=["split", "point", "scan", "cursor", "collapse", "collapse", "collapse"], classes=["progress", "structure", "lockorder"], trace=True, monitor="vers", lockorder=True),
     "C07": dict(kinds=["epoch"], classes=["epoch", "nullvalue", "ledger", "progress"], trace=True, runs_scale=0.4, monitor="epoch"),
     # concurrent clauses of properties whose sequential part is checked by the seq engine
     "C10": dict(kinds=["cursor", "reuse"], classes=["nullvalue", "linearizability", "order", "status"]),
     "C08": dict(kinds=["split", "point"], classes=["structure", "ledger"]),
     "C13": dict(kinds=["storage"], classes=["storage", "structure", "ledger", "progress"]),
+    "C11": dict(kinds=["point", "split", "overwrite"], classes=["leak", "ledger"]),
+    "C17": dict(kinds=["version"], classes=["mutex", "stable", "versionfinal", "progress"], trace=True, monitor="vers", lockorder=False),
     "C15": dict(kinds=["overwrite"], classes=["nullvalue", "linearizability", "status"]),
 }
 
@@ -306,6 +308,41 @@ def check_seq(prop, tier, seed, replay_path=None, extra_sched=False):
     return rc
 
 
+def sched_analyse(spec, out, rc, err2, pre, res):
+    """all oracles over the output of one scheddrv invocation; appends (class, message, schedule) to res["fails"]"""
+    rr = hist.parse(out)
+    res["nruns"] += len(rr)
+    for r in rr:
+        try:
+            res["steps"] += int(r.header.split()[5])
+        except (IndexError, ValueError):
+            pass
+        res["ops"] += len(r.h)
+        for cls, msg in hist.check_run(r, pre, spec["classes"]):
+            res["fails"].append((cls, msg, r.sched))
+        if spec.get("trace") and spec.get("lockorder", not spec.get("monitor")):
+            nacq, cyc, leftover = hist.lock_order(r)
+            res["acq"] += nacq
+            if cyc:
+                res["fails"].append(("lockorder", "lock acquisition order has a cycle: %s" % " -> ".join(cyc), r.sched))
+            if leftover:
+                res["fails"].append(("lockorder", "locks still held after all operations returned: %s" % leftover, r.sched))
+    if spec.get("monitor"):
+        m = subprocess.run([vlib.YAKMODEL, spec["monitor"]], input=out, capture_output=True, text=True)
+        for l in m.stdout.splitlines():
+            if l.startswith("DIFF"):
+                # an illegal version-word transition is a concrete observed execution; the epoch
+                # monitor reports a model/code mismatch that may or may not be a failing input
+                res["fails"].append(("versionword" if "class versionword" in l else "monitor", l[:500], []))
+            elif l.startswith("STATS"):
+                for kv in l.split()[1:]:
+                    k, _, v = kv.partition("=")
+                    res["mon"][k] = res["mon"].get(k, 0) + int(v)
+    if rc != 0:
+        res["fails"].append(("crash", "scheddrv exit %d: %s" % (rc, vlib.crash_excerpt(err2)), []))
+    return res
+
+
 def sched_run(prop, tier, seed, replay_path=None):
     """scheduler-driven part; returns (coverage dict, list of failure dicts)"""
     spec = SCHED[prop]
@@ -317,64 +354,66 @@ def sched_run(prop, tier, seed, replay_path=None):
         rp = json.load(open(replay_path))
         sp = os.path.join(vlib.CACHE, "replay_sched_%d.txt" % os.getpid())
         pre = {bytes.fromhex(k): v for k, v in rp.get("pre", {}).items()}
-        if "schedule" in rp:
+        tr = bool(spec.get("trace"))
+        if "schedule" in rp and rp["schedule"]:
             open(sp, "w").write(" ".join(map(str, rp["schedule"])))
-            rc, out, err2 = schedeng.run_workload(binary, rp["workload"], 1, 0, "replay:" + sp)
+            rc, out, err2 = schedeng.run_workload(binary, rp["workload"], 1, 0, "replay:" + sp, trace=tr)
         else:
-            rc, out, err2 = schedeng.run_workload(binary, rp["workload"], 1, rp.get("seed", 0), rp.get("policy", "random"))
-        for r in hist.parse(out):
-            for cls, msg in hist.check_run(r, pre, spec["classes"]):
-                fails.append({"kind": cls, "detail": msg, "found": True, "workload": rp["workload"], "schedule": r.sched, "pre": rp.get("pre", {})})
-        if rc != 0:
-            fails.append({"kind": "crash", "detail": vlib.crash_excerpt(err2), "found": True, "workload": rp["workload"], "schedule": rp.get("schedule", []), "pre": rp.get("pre", {})})
-        return {"sched_evaluations": 1}, fails
+            rc, out, err2 = schedeng.run_workload(binary, rp["workload"], rp.get("runs", 30), rp.get("seed", 0), rp.get("policy", "random"), trace=tr)
+        res = sched_analyse(spec, out, rc, err2, pre, {"nruns": 0, "steps": 0, "ops": 0, "fails": [], "acq": 0, "mon": {}})
+        for cls, msg, sch in res["fails"]:
+            fails.append({"kind": cls, "detail": msg, "found": cls != "monitor", "workload": rp["workload"], "schedule": sch or rp.get("schedule", []), "pre": rp.get("pre", {})})
+        return {"sched_evaluations": res["nruns"], "sched_steps": res["steps"]}, fails
+    # past failures first: the recorded schedule, then fresh schedules of the same workload
+    cdir = os.path.join(vlib.VERIF, "corpus", prop)
+    cjobs = []
+    if os.path.isdir(cdir):
+        for fn in sorted(f for f in os.listdir(cdir) if f.endswith(".json")):
+            try:
+                rp = json.load(open(os.path.join(cdir, fn)))
+            except ValueError:
+                continue
+            if "workload" in rp:
+                cjobs.append(("corpus:" + fn, rp))
     nwl = 96 if tier == "quick" else 1200
     runs = max(3, int((30 if tier == "quick" else 150) * spec.get("runs_scale", 1)))
     jobs = []
-    for kind in spec["kinds"]:
+    for j, kind in enumerate(spec["kinds"]):
+        dup = spec["kinds"][:j].count(kind)      # a kind listed twice gets twice the workloads
         for i in range(nwl // len(spec["kinds"]) + 1):
-            jobs.append((kind, seed * 10000 + i))
+            jobs.append((kind, seed * 10000 + dup * 2000 + i))
 
     def one(job):
         kind, sd = job
+        if kind.startswith("corpus:"):
+            rp = sd
+            pre = {bytes.fromhex(k): v for k, v in rp.get("pre", {}).items()}
+            res = {"meta": {"shape": kind, "kind": "corpus"}, "text": rp["workload"], "pre": pre, "nruns": 0, "steps": 0, "ops": 0, "fails": [], "acq": 0, "mon": {}}
+            tr = bool(spec.get("trace"))
+            if rp.get("schedule"):
+                sp = os.path.join(vlib.CACHE, "corpus_sched_%d_%s.txt" % (os.getpid(), kind[7:]))
+                open(sp, "w").write(" ".join(map(str, rp["schedule"])))
+                rc, out, err2 = schedeng.run_workload(binary, rp["workload"], 1, 0, "replay:" + sp, trace=tr)
+                # a recorded schedule may no longer be feasible after a code change: that is not a failure
+                out = "\n".join(l.replace(" REPLAY-INFEASIBLE", "") for l in out.splitlines()) + "\n"
+                sched_analyse(spec, out, rc, err2, pre, res)
+            for pol in ("random", "pct"):
+                rc, out, err2 = schedeng.run_workload(binary, rp["workload"], runs, rp.get("seed", 0) + seed, pol, trace=tr)
+                sched_analyse(spec, out, rc, err2, pre, res)
+            return res
         text, pre, meta = schedeng.make_workload(sd, kind)
         res = {"meta": meta, "text": text, "pre": pre, "nruns": 0, "steps": 0, "ops": 0, "fails": [], "acq": 0, "mon": {}}
         pol = ["random", "pct", "sticky", "pct"][sd % 4]
         nruns = runs
         if kind == "reuse":
             pol, nruns = "pct", runs * 6      # a reader must be held back across two whole operations
+        if kind == "collapse":
+            nruns = runs * 4                  # one compare-exchange has to land inside another's load..CAS window
         rc, out, err2 = schedeng.run_workload(binary, text, nruns, sd * 100, pol, trace=bool(spec.get("trace")))
-        rr = hist.parse(out)
-        res["nruns"] = len(rr)
-        for r in rr:
-            try:
-                res["steps"] += int(r.header.split()[5])
-            except (IndexError, ValueError):
-                pass
-            res["ops"] += len(r.h)
-            for cls, msg in hist.check_run(r, pre, spec["classes"]):
-                res["fails"].append((cls, msg, r.sched))
-            if spec.get("trace") and not spec.get("monitor"):
-                nacq, cyc, leftover = hist.lock_order(r)
-                res["acq"] += nacq
-                if cyc:
-                    res["fails"].append(("lockorder", "lock acquisition order has a cycle: %s" % " -> ".join(cyc), r.sched))
-                if leftover:
-                    res["fails"].append(("lockorder", "locks still held after all operations returned: %s" % leftover, r.sched))
-        if spec.get("monitor"):
-            m = subprocess.run([vlib.YAKMODEL, spec["monitor"]], input=out, capture_output=True, text=True)
-            for l in m.stdout.splitlines():
-                if l.startswith("DIFF"):
-                    res["fails"].append(("monitor", l[:500], []))
-                elif l.startswith("STATS"):
-                    for kv in l.split()[1:]:
-                        k, _, v = kv.partition("=")
-                        res["mon"][k] = res["mon"].get(k, 0) + int(v)
-        if rc != 0:
-            res["fails"].append(("crash", "scheddrv exit %d: %s" % (rc, vlib.crash_excerpt(err2)), []))
+        sched_analyse(spec, out, rc, err2, pre, res)
         return res
 
-    results = vlib.pmap(one, jobs)
+    results = vlib.pmap(one, cjobs + jobs)
     shapes = {}
     for r in results:
         shapes[r["meta"]["shape"]] = shapes.get(r["meta"]["shape"], 0) + r["nruns"]
